@@ -1057,8 +1057,12 @@ class eigenbasis_of(basis_context_manager):
         self.manager._in_eigenbasis_of_context = True
 
         # the operator defining the basis we are leaving is remembered so
-        # that it can be put back on exit (contexts can be nested)
-        self._op_outside = self.manager.current_basis_operator
+        # that it can be put back on exit (contexts can be nested, and
+        # the same context object can be entered again while it is active)
+        if not hasattr(self, "_ops_outside"):
+            self._ops_outside = []
+        self._ops_outside.append(self.manager.current_basis_operator)
+        self._op_outside = self._ops_outside[-1]
         self.manager.store_current_basis_operator(self.op)
         
         if self.manager.warn_about_basis_change:
@@ -1120,6 +1124,7 @@ class eigenbasis_of(basis_context_manager):
                 if op not in ops_above:
                     self.manager.register_with_basis(nb,op)
             
+        self._op_outside = self._ops_outside.pop()
         self.manager.store_current_basis_operator(self._op_outside)
             
         del self.manager.basis_registered[bb]
